@@ -859,6 +859,9 @@ sendpld_flush(br_ssl_engine_context *rc, int force)
 	if (xlen == 0 && !force) {
 		return;
 	}
+	if (rc->iomode == BR_IO_INOUT && rc->ibuf == rc->obuf) {
+		rc->iomode = BR_IO_OUT;
+	}
 	buf = rc->out.vtable->encrypt(&rc->out.vtable,
 		rc->record_type_out, rc->version_out,
 		rc->obuf + rc->oxc, &xlen);
